@@ -170,13 +170,13 @@ func runScopes(c *core.Ctx, st pred.Style, table []pred.Row) {
 	db := H.DB.Session(&gorm.Session{}).Model(&pred.Row{})
 	var descs []string
 	for i := 0; i < nb; i++ {
-		u := pred.RandUnit(r, st)
+		u := randUnit(r, st)
 		base = append(base, u)
 		db = db.Scopes(scope(u))
 		descs = append(descs, "Scopes(Where "+u.Desc+")")
 	}
 	h := db.Session(&gorm.Session{})
-	ua, ub := pred.RandUnit(r, st), pred.RandUnit(r, st)
+	ua, ub := randUnit(r, st), randUnit(r, st)
 	qa := h.Scopes(scope(ua))
 	qb := h.Scopes(scope(ub))
 	want := func(own *pred.Unit) []int64 {
